@@ -150,7 +150,8 @@ def parse_expr(s, index_names=("df",)):
 
 
 def parse_assignment(s, index_names=("df",)):
-    """'lhs = rhs' -> (lhs_tree, rhs_tree); lhs is ('elem', n) or ('name', n)."""
+    """'lhs = rhs' -> (lhs_tree, rhs_tree); lhs is ('elem', n), ('name', n) or an array element
+    with several subscripts ('call', N, [subscripts], {})."""
     toks = tokenize(s)
     depth, pos = 0, None
     for j, (k, v) in enumerate(toks):
@@ -165,7 +166,7 @@ def parse_assignment(s, index_names=("df",)):
         raise ParseError("no top-level '=' in %r" % s)
     pl = P(toks[:pos], index_names)
     lhs = pl.atom()
-    if pl.peek()[0] != "eof" or lhs[0] not in ("elem", "name"):
+    if pl.peek()[0] != "eof" or lhs[0] not in ("elem", "name", "call"):
         raise ParseError("bad left-hand side in %r" % s)
     pr = P(toks[pos + 1:], index_names)
     rhs = pr.expr()
